@@ -3,7 +3,7 @@
    tied to the code by the C10 correspondence; an entries dict is an association list in dict order;
    the third component of the loader's result is the row-id dtype's itemsize (4 = uint32). *)
 From Coq Require Import ZArith List Bool.
-From Catii Require Import Indx.Bytes Indx.Layout Indx.Save Indx.Load Indx.RoundTrip.
+From Catii Require Import IIndex.Model IIndex.ModelFacts Indx.Bytes Indx.Layout Indx.Save Indx.Load Indx.RoundTrip Indx.Rebuild Indx.LoadWF.
 Import ListNotations.
 Open Scope Z_scope.
 
@@ -28,3 +28,27 @@ Example C10_nonvacuous :
     SOk [73; 78; 68; 88; 48; 48; 48; 49;  33; 0; 0; 0; 0; 0; 0; 0;  2;  2; 0; 0; 0;  2;  44; 1;
          1; 0; 0; 0;  2; 0; 1; 0;  4;  2; 0; 0; 0;  0; 0; 0; 0;  3; 0; 0; 0;  5; 0; 0; 0].
 Proof. split; [apply ok_b_ok; vm_compute; reflexivity|split; [apply ok_b_ok; vm_compute; reflexivity|vm_compute; reflexivity]]. Qed.
+
+(* Second sentence of the property.  [to_indx] presents the index's dict to the saver (keys are the
+   coordinate tuples value :: higher coordinates, in dict order), [rebuild r nrows hshape] is
+   iindex(entries, common, shape) on the loader's result (Indx/Rebuild.v; the INDX file does not record
+   the shape, the caller keeps it).  WF is the validation predicate of C07 (IIndex/Model.v);
+   [storable]: what the format can hold - unsigned values and common below 2^63, extents up to 2^63,
+   fewer than 255 higher axes, fewer than 2^32 rows and entries, fewer than 2^60 row ids in total.
+   The rebuilt index is the SAME record (same entries in the same order), hence equal under any notion
+   of index equality, and well-formed. *)
+Theorem load_wf : forall idx, WF idx -> storable idx ->
+  exists bytes idx', save (to_indx (entries idx)) (common idx) = SOk bytes /\
+    rebuild (load bytes) (nrows idx) (hshape idx) = Some idx' /\ idx' = idx /\ WF idx'.
+Proof. exact LoadWF.load_wf. Qed.
+Print Assumptions load_wf.
+
+(* non-vacuity: a 2-D index of 6 rows x 3 columns, common 7, a value that needs a 2-byte word *)
+Example load_wf_nonvacuous :
+  let idx := {| entries := [((1, [0]), [0; 3; 5]); ((300, [0]), [1]); ((1, [2]), [2; 4]); ((0, [1]), [0; 1; 2; 3; 4; 5])];
+                common := 7; nrows := 6; hshape := [3] |} in
+  WF idx /\ storable idx /\
+  rebuild (match save (to_indx (entries idx)) (common idx) with SOk b => load b | SErr _ => LErr SBody end) 6 [3] = Some idx.
+Proof.
+  split; [apply wf_b_spec; vm_compute; reflexivity|]. split; [apply storable_b_ok; vm_compute; reflexivity|vm_compute; reflexivity].
+Qed.
